@@ -14,7 +14,9 @@ use std::collections::HashSet;
 /// the statement only requires that they stay hidden (for the Elide action: as the bare digest).
 fn matches(o: &O, x: &O, tolerant: &HashSet<D>, kind: Kind, path: &str) -> Option<(String, String)> {
     if let (O::Obscured(ko, d1), O::Obscured(_, d2)) = (o, x) {
-        if d1 == d2 && tolerant.contains(d1) && (kind != Kind::Elided || *ko == Kind::Elided) { return None }
+        // ... except that a COMPRESSED element hides nothing (anyone can uncompress it): under the Encrypt action the statement allows "only
+        // ciphertext", so a targeted compressed element must not stay compressed
+        if d1 == d2 && tolerant.contains(d1) && (kind != Kind::Elided || *ko == Kind::Elided) && !(kind == Kind::Encrypted && *ko == Kind::Compressed) { return None }
     }
     if o.case_name() != x.case_name() { return Some((path.to_string(), format!("{}-expected-{}", o.case_name(), x.case_name()))) }
     if o.digest() != x.digest() { return Some((path.to_string(), "digest".into())) }
